@@ -40,6 +40,11 @@ STRATA = {
     "invalid_matrix": (1000, 20000),
     "construct_errors": (500, 10000),
 }
+# functions that must leave their arguments untouched (vf.core.PurityMonitor; '!' = the object itself is watched too)
+PURE = [
+    "biotite.sequence.phylo.upgma:upgma",
+    "biotite.sequence.phylo.nj:neighbor_joining",
+]
 REQUIRED_ORACLES = [
     "leaves_are_range_n", "upgma_ultrametric", "upgma_node_height_avg_linkage",
     "upgma_recovers_ultrametric_matrix", "nj_additive_path_lengths", "invalid_matrix_rejected",
